@@ -11,7 +11,7 @@ import (
 type mapStore struct {
 	Key   string
 	Val   *core.Term
-	ValX  *core.Term // Val with single-expression helpers of the module unfolded
+	ValX  *core.Term   // Val with single-expression helpers of the module unfolded
 	Facts core.FactSet // must-facts at the store (root space; includes the facts at every call site on the way)
 	Pos   string
 	Fn    *ssa.Function
